@@ -19,10 +19,15 @@ def rel (base : Nat) (s : String) : String := toString ((s.toNat?.getD 0 + 2^32 
 def normTok (base : Nat) (t : String) : String :=
   if t.startsWith "cum=" then "cum=" ++ rel base (t.drop 4).toString
   else if t.startsWith "next=" then "next=" ++ rel base (t.drop 5).toString
+  else if t.startsWith "rtx=" then
+    let v := (t.drop 4).toString
+    if v == "-" then t else "rtx=" ++ ",".intercalate ((v.splitOn ",").map (rel base))   -- oracle: TSNs marked for retransmission
   else if t.startsWith "other:" then (t.splitOn "TSN:").headD t   -- error texts quote absolute TSNs
   else match t.splitOn ":" with
     | "DATA" :: tsn :: rest => ":".intercalate ("DATA" :: rel base tsn :: rest)
     | "IDATA" :: tsn :: rest => ":".intercalate ("IDATA" :: rel base tsn :: rest)
+    | "FWD" :: tsn :: rest => ":".intercalate ("FWD" :: rel base tsn :: rest)
+    | "IFWD" :: tsn :: rest => ":".intercalate ("IFWD" :: rel base tsn :: rest)
     | _ => t
 
 def normLine (base : Nat) (op impl : List String) : String :=
